@@ -10,6 +10,7 @@ import (
 	"runtime/pprof"
 	"sort"
 	"strings"
+	"time"
 
 	"github.com/MichaelMure/git-bug/cache"
 	"github.com/MichaelMure/git-bug/entities/bug"
@@ -139,24 +140,84 @@ func errStr(err error) string {
 	return s
 }
 
-func firstBugReadAllErr(repo repository.ClockedRepo) string {
-	first := ""
+// A panic inside a goroutine started by git-bug first runs that goroutine's deferred close() of the
+// result channel and only then takes the process down. The reader of the channel sees a normal end
+// of stream for a moment. To attribute the death to the right case, every stream is checked for
+// completeness (one element per ref, unless an error element ended it); an incomplete stream means
+// the producer died, and the worker then waits for the process to go down with it.
+func awaitDeath() {
+	time.Sleep(1500 * time.Millisecond)
+}
+
+func countRefs(dir, prefix string) int {
+	g, err := openRaw(dir)
+	if err != nil {
+		return 0
+	}
+	all, _ := g.refs()
+	n := 0
+	for name := range all {
+		if strings.HasPrefix(name, prefix) {
+			n++
+		}
+	}
+	return n
+}
+
+func firstBugReadAllErr(repo repository.ClockedRepo, dir string) string {
+	first, n := "", 0
 	for e := range bug.ReadAll(repo) {
+		n++
 		if e.Err != nil && first == "" {
 			first = "bugs: " + errStr(e.Err)
 		}
 	}
+	if first == "" && n < countRefs(dir, "refs/bugs/") {
+		awaitDeath()
+		return "bugs: stream ended early without an error"
+	}
 	return first
 }
 
-func firstIdReadAllErr(repo repository.ClockedRepo) string {
-	first := ""
+func firstIdReadAllErr(repo repository.ClockedRepo, dir string) string {
+	first, n := "", 0
 	for e := range identity.ReadAllLocal(repo) {
+		n++
 		if e.Err != nil && first == "" {
 			first = "identities: " + errStr(e.Err)
 		}
 	}
+	if first == "" && n < countRefs(dir, "refs/identities/") {
+		awaitDeath()
+		return "identities: stream ended early without an error"
+	}
 	return first
+}
+
+// openCache is cache.NewRepoCacheNoEvents with the completeness check on the build events.
+func openCache(repo repository.ClockedRepo) (*cache.RepoCache, error) {
+	rc, events := cache.NewRepoCache(repo)
+	started, finished := 0, 0
+	var first error
+	for ev := range events {
+		if ev.Err != nil && first == nil {
+			first = ev.Err
+		}
+		switch ev.Event {
+		case cache.BuildEventStarted:
+			started++
+		case cache.BuildEventFinished:
+			finished++
+		}
+	}
+	if first != nil {
+		return nil, first
+	}
+	if finished < started {
+		awaitDeath()
+		return nil, fmt.Errorf("cache build ended early without an error")
+	}
+	return rc, nil
 }
 
 func judge_(kind string, repo repository.RepoData, ref string) Verdict {
@@ -311,8 +372,13 @@ func (r *runner) Run(caseID string) (obs Obs) {
 	switch c.Mode {
 	case "E":
 		r.phase(caseID, "identity.MergeAll")
+		n := 0
 		for res := range identity.MergeAll(repo, "origin") {
 			record("identities", res)
+			n++
+		}
+		if n < countRefs(dir, "refs/remotes/origin/identities/") {
+			awaitDeath()
 		}
 		r.phase(caseID, "bug.MergeAll")
 		author, err := identity.GetUserIdentity(repo)
@@ -320,13 +386,18 @@ func (r *runner) Run(caseID string) (obs Obs) {
 			// the victim's own identity was the entity under attack and is now unreadable
 			obs.ReadAll = "user identity: " + errStr(err)
 		} else {
+			n := 0
 			for res := range bug.MergeAll(repo, resolvers(repo), "origin", author) {
 				record("bugs", res)
+				n++
+			}
+			if n < countRefs(dir, "refs/remotes/origin/bugs/") {
+				awaitDeath()
 			}
 		}
 	case "C", "P":
 		r.phase(caseID, "cache.open")
-		rc, err := cache.NewRepoCacheNoEvents(repo)
+		rc, err := openCache(repo)
 		if err != nil {
 			return Obs{Harness: "open cache: " + err.Error(), Verdict: obs.Verdict}
 		}
@@ -343,8 +414,13 @@ func (r *runner) Run(caseID string) (obs Obs) {
 		}
 		if fetched {
 			r.phase(caseID, "RepoCache.MergeAll")
+			n := 0
 			for res := range rc.MergeAll("origin") {
 				record(kindOf(res), res)
+				n++
+			}
+			if n < countRefs(dir, "refs/remotes/origin/") {
+				awaitDeath()
 			}
 		}
 		r.phase(caseID, "cache.close")
@@ -362,18 +438,18 @@ func (r *runner) Run(caseID string) (obs Obs) {
 				obs.ReadEmpty = true
 			}
 			r.phase(caseID, "bug.ReadAll")
-			obs.ReadAllL = strp(firstBugReadAllErr(repo))
+			obs.ReadAllL = strp(firstBugReadAllErr(repo, dir))
 		} else {
 			r.phase(caseID, "identity.ReadLocal")
 			_, err := identity.ReadLocal(repo, id)
 			obs.Read = strp(errStr(err))
 			r.phase(caseID, "identity.ReadAllLocal")
-			obs.ReadAllL = strp(firstIdReadAllErr(repo))
+			obs.ReadAllL = strp(firstIdReadAllErr(repo, dir))
 		}
 		r.phase(caseID, "cache.build")
 		_ = os.RemoveAll(filepath.Join(dir, ".git", world.Namespace, "cache"))
 		_ = os.RemoveAll(filepath.Join(dir, ".git", world.Namespace, "indexes"))
-		rc, err := cache.NewRepoCacheNoEvents(repo)
+		rc, err := openCache(repo)
 		obs.Build = strp(errStr(err))
 		if err == nil {
 			r.phase(caseID, "cache.resolve")
@@ -435,11 +511,22 @@ func (r *runner) Run(caseID string) (obs Obs) {
 			id := entity.Id(name[strings.LastIndexByte(name, '/')+1:])
 			r.phase(caseID, "read-after")
 			if strings.HasPrefix(name, "refs/bugs/") {
-				_, err := bug.Read(repo, id)
+				b, err := bug.Read(repo, id)
+				if err == nil {
+					// readable means usable: an entity failing its own Validate() can never be committed to again
+					if verr := b.Validate(); verr != nil {
+						err = fmt.Errorf("invalid: %w", verr)
+					}
+				}
 				ch.ReadErr = errStr(err)
 				ch.Verdict = JudgeBug(repo, name).String()
 			} else {
-				_, err := identity.ReadLocal(repo, id)
+				i, err := identity.ReadLocal(repo, id)
+				if err == nil {
+					if verr := i.Validate(); verr != nil {
+						err = fmt.Errorf("invalid: %w", verr)
+					}
+				}
 				ch.ReadErr = errStr(err)
 				ch.Verdict = JudgeIdentity(repo, name).String()
 			}
@@ -458,9 +545,9 @@ func (r *runner) Run(caseID string) (obs Obs) {
 		// Read* on the state the merge left behind (entities of the mutant's kind; the authors of
 		// all bugs are identities that are never under attack)
 		if s.Kind == "identity" {
-			obs.ReadAll = firstIdReadAllErr(repo)
+			obs.ReadAll = firstIdReadAllErr(repo, dir)
 		} else {
-			obs.ReadAll = firstBugReadAllErr(repo)
+			obs.ReadAll = firstBugReadAllErr(repo, dir)
 		}
 	}
 	r.phase(caseID, "done")
